@@ -4,7 +4,7 @@ BB = "nstruct, nrows in 1..3 (all loops completely unwound), arbitrary status co
 ASM = "bio/*: the TEXT layer of the basis file (EGioPrintf formatting, MPS line tokenising ILLmps_next_line/next_field, name lookup ILLlib_colindex/rowindex) is replaced by a record stream shared by both groups; that real text passes through it unchanged is NOT decided"
 GROUPS = [
     Group("bio/write", "lib_basisio.c", tus=["lib_mpq.c", "allocrus.c"], model=MODEL, defines=["FN_write"], dfcc=False, unwind=14, kind="bounded", bound=BB, namebuf=512,
-          flags=["--no-malloc-may-fail"], must_fail=["reach_end", "reach_several_records"], functions=["ILLlib_writebasis"], props=["C14", "C17"], assumed=[ASM]),
+          flags=["--no-malloc-may-fail"], object_bits=11, must_fail=["reach_end", "reach_several_records"], functions=["ILLlib_writebasis"], props=["C14", "C17"], assumed=[ASM]),
     Group("bio/read", "lib_basisio.c", tus=["lib_mpq.c", "lpdata_mpq.c", "allocrus.c"], model=MODEL, defines=["FN_read"], dfcc=False, unwind=14, kind="bounded", bound=BB, namebuf=512,
           flags=["--no-malloc-may-fail"], functions=["ILLlib_readbasis"], props=["C14", "C17"], assumed=[ASM],
           ignore=[(r"strcpy src/dst overlap", "CBMC's strcpy model demands different objects")]),
